@@ -1,5 +1,5 @@
 (* The generated input models accept every value the schema's (canonical-form) input coercion accepts,
-   outside finding classes F21 (g21) and F18 (names_ok_fields); and refuse a value lacking a required field. *)
+   outside finding class F18 (names_ok_fields); and refuse a value lacking a required field. *)
 From Coq Require Import List String Ascii ZArith Bool Lia.
 From AC Require Import Base.Sexp Base.Json Base.Strs Gql.InSchema Gql.InCoerce
   Model.Names Model.Defaults Model.Inputs Py.PyEval Proofs.InputsP.
@@ -183,7 +183,7 @@ Qed.
 Definition type_ok (snake : bool) (d : string * tdef) : bool :=
   negb (fst d =? "Upload") &&
   match snd d with
-  | DInput fs => names_ok_fields snake fs && forallb (fun f => g21 (i_type f) true) fs
+  | DInput fs => names_ok_fields snake fs
   | _ => true
   end.
 Definition schema_ok (snake : bool) (s : schema) : bool := forallb (type_ok snake) s.
@@ -197,11 +197,10 @@ Proof.
 Qed.
 
 Lemma schema_ok_input snake s nm fs : schema_ok snake s = true -> lookup nm s = Some (DInput fs) ->
-  names_ok_fields snake fs = true /\ forall f, In f fs -> g21 (i_type f) true = true.
+  names_ok_fields snake fs = true.
 Proof.
   intros H L. apply lookup_in in L. unfold schema_ok in H. rewrite forallb_forall in H.
-  specialize (H _ L). unfold type_ok in H. simpl in H. apply andb_true_iff in H as [_ H].
-  apply andb_true_iff in H as [H1 H2]. split; [exact H1|]. rewrite forallb_forall in H2. exact H2.
+  specialize (H _ L). unfold type_ok in H. simpl in H. apply andb_true_iff in H as [_ H]. exact H.
 Qed.
 
 Lemma schema_ok_not_upload snake s nm d : schema_ok snake s = true -> lookup nm s = Some d ->
@@ -278,12 +277,12 @@ Proof. destruct j; auto; right; discriminate. Qed.
 
 (* ---------- the forward theorem ---------- *)
 Theorem accepts_complete s cs snake : schema_ok snake s = true ->
-  forall n t nb j cv, g21 t nb = true -> (nb = false -> j <> JNull) ->
+  forall n t nb j cv, (nb = false -> j <> JNull) ->
   coerce_input n s t j = Some cv ->
   accepts n (env_of s cs snake) (fst (parse_input_field_type s cs t nb)) j = true.
 Proof.
   intros OK. induction n as [n IHn] using lt_wf_ind.
-  induction t as [nm | t IH | t IH]; intros nb j cv G NB C.
+  induction t as [nm | t IH | t IH]; intros nb j cv NB C.
   - (* named *)
     simpl. destruct (leaf s cs nm) as [a tn] eqn:LF. simpl.
     rewrite accepts_opt_if by exact NB.
@@ -312,7 +311,7 @@ Proof.
     destruct (fields_with (fun k => jlookup k kv) (coerce_input n' s) (coerced_default n' s) fs) as [r|] eqn:FW;
       [|discriminate].
     pose proof (kind_of_lookup s nm) as KL. rewrite K in KL.
-    destruct (schema_ok_input snake s nm fs OK KL) as [NOK G21].
+    pose proof (schema_ok_input snake s nm fs OK KL) as NOK.
     assert (a = AClass nm) as ->.
     { unfold leaf in LF. rewrite K in LF. inversion LF. reflexivity. }
     rewrite accepts_class. simpl e_classes. unfold gen_classes.
@@ -323,26 +322,23 @@ Proof.
     pose proof (fields_with_each _ _ _ _ _ FW f Hf) as EACH. simpl in EACH.
     destruct (jlookup (i_name f) kv) as [x|] eqn:L.
     + destruct EACH as [v Cv]. rewrite gen_field_ann.
-      apply (IHn n' (Nat.lt_succ_diag_r n') (i_type f) true x v (G21 f Hf)); [discriminate | exact Cv].
+      apply (IHn n' (Nat.lt_succ_diag_r n') (i_type f) true x v); [discriminate | exact Cv].
     + rewrite has_default_gen. destruct EACH as [D|NNf].
       * destruct (i_default f); [rewrite andb_false_r; reflexivity | congruence].
       * rewrite NNf. reflexivity.
   - (* list *)
-    simpl in G. apply andb_true_iff in G as [G1 G2].
-    simpl. destruct (parse_input_field_type s cs t nb) as [sl tn] eqn:E. simpl.
+    simpl. destruct (parse_input_field_type s cs t true) as [sl tn] eqn:E. simpl.
     rewrite accepts_opt_if by exact NB. rewrite coerce_list in C.
     destruct j; try reflexivity; try discriminate.
     rewrite accepts_list. destruct n as [|n']; [discriminate|].
     destruct (map_opt (coerce_input n' s t) l) as [r|] eqn:M; [|discriminate].
     apply forallb_forall. intros x Hx.
     destruct (map_opt_forall _ _ _ M x Hx) as [y Cy].
-    replace sl with (fst (parse_input_field_type s cs t nb)) by (rewrite E; reflexivity).
-    apply (IHn n' (Nat.lt_succ_diag_r n') t nb x y G2); [|exact Cy].
-    intros ->. simpl in G1. destruct t; simpl in G1; try discriminate.
-    rewrite coerce_nonnull in Cy. intros ->. discriminate.
+    replace sl with (fst (parse_input_field_type s cs t true)) by (rewrite E; reflexivity).
+    apply (IHn n' (Nat.lt_succ_diag_r n') t true x y); [discriminate | exact Cy].
   - (* non-null *)
-    simpl. rewrite coerce_nonnull in C. simpl in G.
-    apply (IH false j cv G); [intros _ ->; discriminate | destruct j; try exact C; discriminate].
+    simpl. rewrite coerce_nonnull in C.
+    apply (IH false j cv); [intros _ ->; discriminate | destruct j; try exact C; discriminate].
 Qed.
 
 (* ---------- a value lacking a required field is refused ---------- *)
